@@ -18,7 +18,7 @@ ENGINES = [
     {"name": "codec-engine", "path": "gtmon/codecmon.py", "serves_properties": ["C07", "C08", "C14", "C15"], "kind_free_text":
      "AuxData type/value generators, independent reference codec and type-name recogniser, Java cross-check driver (java/Xcheck.java)"},
     {"name": "selftest", "path": "tools/selftest", "serves_properties": ["C%02d" % i for i in range(1, 20)], "kind_free_text":
-     "sensitivity / false-alarm self-validation: ~100 mutants must be caught, 12 behaviour-preserving refactorings must stay silent, 114 independently seeded changes from six rounds of sub-agents under seeded/ (tools/seed_matrix)"},
+     "sensitivity / false-alarm self-validation: ~100 mutants must be caught, 17 behaviour-preserving refactorings must stay silent, 114 independently seeded changes from six rounds of sub-agents under seeded/ (tools/seed_matrix)"},
 ]
 CHECKS = {
     "C03": {
